@@ -243,10 +243,16 @@ class Reader(BaseValidator):
 
         :raises cutplace.errors.DataError: on broken data
         """
+        # NOTE: Reset the checks right now instead of when the first row is requested so a validation
+        # that never requests any row (for example with ``validate_until=0``) does not see data from
+        # an earlier use of the CID.
         self.accepted_rows_count = 0
         self.rejected_rows_count = 0
         for check in self.cid.check_map.values():
             check.reset()
+        return self._rows()
+
+    def _rows(self):
         header_row_count = self._cid.data_format.header
         for row_count, row in enumerate(self._raw_rows(), 1):
             try:
